@@ -523,6 +523,12 @@ class CHECK(Check):
         """F10: exactly collinear sensitive columns whose centred float representation is collinear only up to
         rounding; numpy.linalg.lstsq(rcond=None) then keeps the noise singular value and returns |beta_| ~ 1e14.
         Matched by: the centred block is rank deficient in exact arithmetic AND the fitted beta_ is huge."""
+        # only the consequences of a wrong beta_ (theorems residual_unique / output_independent_of_solution: with ANY exact
+        # solution these relations hold, so their failure on such a case is the float artefact); a wrong shape, a wrong
+        # column order, transform(train) != fit_transform or a wrong mean on the same input are still reported
+        if problem.relation not in ("C15.uncorrelated", "C15.lstsq_minimises", "C15.alpha_blend", "C15.transform_affine",
+                                    "C15.isLstsq"):
+            return None
         for e in entries:
             if e.get("match") != "rank_deficient_and_beta_blowup":
                 continue
